@@ -56,6 +56,12 @@ MUTANTS = [
     ("sqlite-autocommit", "C04", "sqlite", "mypy/metastore.py", "db = sqlite3.dbapi2.connect(db_file, check_same_thread=False)", "db = sqlite3.dbapi2.connect(db_file, check_same_thread=False, isolation_level=None)", "violation"),
     ("validate-meta-stub-kind-check-dropped", "C02", "validate_meta", "mypy/build.py", 'if path.endswith(".pyi") != meta.path.endswith(".pyi") and not fine_grained_cache:', 'if False and not fine_grained_cache:', "violation"),
     ("find-meta-length-check-dropped", "C02", "find_cache_meta", "mypy/build.py", "if len(meta) < 2 or meta[0] != cache_version()", "if meta[0] != cache_version()", "violation"),
+    ("watch-mtime-only-shortcut", "C03", "find_changed", "mypy/fswatcher.py", "elif st.st_size != old.st_size or int(st.st_mtime) != int(old.st_mtime):", "elif int(st.st_mtime) != int(old.st_mtime):", "violation"),
+    ("watch-hash-not-refreshed", "C03", "find_changed", "mypy/fswatcher.py", "                    new_hash = self.fs.hash_digest(path)\n                    self._update(path, st)\n                    if st.st_size != old.st_size or new_hash != old.hash:", "                    new_hash = self.fs.hash_digest(path)\n                    if st.st_size != old.st_size or new_hash != old.hash:\n                        self._update(path, st)", "violation"),
+    ("watch-deleted-not-forgotten", "C03", "find_changed", "mypy/fswatcher.py", "                    changed.add(path)\n                    self._file_data[path] = None", "                    changed.add(path)", "violation"),
+    ("watch-compare-order-harmless", "C03", "find_changed", "mypy/fswatcher.py", "if st.st_size != old.st_size or new_hash != old.hash:", "if new_hash != old.hash or st.st_size != old.st_size:", "pass"),
+    ("clear-errors-blocker-flag-lost", "C03", "clear", "mypy/errors.py", "                    new_errors.append(info)\n                    has_blocker |= info.blocker", "                    new_errors.append(info)\n                    has_blocker = info.blocker", "violation"),
+    ("clear-errors-once-message-kept", "C03", "clear", "mypy/errors.py", "                elif info.only_once:\n                    self.only_once_messages.remove(info.message)", "                elif info.only_once and info.blocker:\n                    self.only_once_messages.remove(info.message)", "violation"),
     ("enabled-parent-check-dropped", "C13", "is_error_code_enabled", "mypy/errors.py", "elif error_code.sub_code_of is not None and error_code.sub_code_of in current_mod_disabled:\n            return False", "elif error_code.sub_code_of is not None and error_code.sub_code_of in current_mod_enabled:\n            return False", "violation"),
 ]
 
